@@ -394,6 +394,8 @@ func checkC11(c *Check) {
 	c.Rule("C11.R2", "merge is total and guarded: for every field of TokenResponse the returned object's field is assigned on every path to the non-nil return; a value taken from the IdP answer is the same-named member under its guard (ID token: parses; access/refresh token: non-empty; expiry: expires_in > 0), otherwise the same field of the stored tokens.", 4)
 	c.Rule("C11.R3", "the merged result is validated: every non-nil return of the refresh helper is dominated by token exchange OK and validator(returned.IDToken) == true; every other exit returns nil.", 1)
 	c.Rule("C11.R4", "outcome: a nil result leads to the login redirect with the presented session id (which removes the stale session: C05.R1); a non-nil result is stored under the same session id and that same object is the one allowed.", 3)
+	c.Rule("C11.R5", "expiry test: the refresh is attempted exactly when a required token has expired — every `not expired` return of the expiry test is dominated by a successful parse of the stored ID token and by the false outcome of IDToken.Expiration().Before(clock.Now()); the access-token clause can only add `expired` outcomes (the rule C01.R4: an expiry test that overlooks the ID token never triggers the refresh).", 2)
+	refile(c, "C11.R5", func() { c01R4(c, R) })
 	if !requireModel(c, "C11.R1", m, "refresh.") {
 		return
 	}
